@@ -43,7 +43,7 @@ func LoadKnownFindings(path, property string) *KnownFindings {
 
 // Match returns the finding whose key equals key exactly (keys never contain white space).
 func (k *KnownFindings) Match(key string) *Finding {
-	key = strings.Join(strings.Fields(key), "_")
+	key = NormKey(key)
 	for i := range k.Findings {
 		if k.Findings[i].Key == key {
 			return &k.Findings[i]
@@ -51,3 +51,6 @@ func (k *KnownFindings) Match(key string) *Finding {
 	}
 	return nil
 }
+
+// NormKey makes a violation key white-space free.
+func NormKey(key string) string { return strings.Join(strings.Fields(key), "_") }
